@@ -43,6 +43,7 @@ func FaultAnyOnce(kinds string)
 func FaultDisarm()
 func FaultFired() bool
 func IOCount(kind string) int
+func LastFault() (kind string, eventIndex int)
 func FileSize(path string) int64
 func FileBytes(path string) []byte
 func WriteFileBytes(path string, b []byte)
